@@ -90,6 +90,12 @@ def evalx(fn, nid, env, depth=0):
         return evalx(fn, c[1] if evalx(fn, c[0], env, depth + 1) else c[2], env, depth + 1)
     if k == "call":
         leaf = n.get("callee", "").split("::")[-1]
+        if leaf == "load":
+            a_ = fn.atomic(nid)
+            key = ("load:" + a_["field"].split("::")[-1]) if a_ else None
+            if key and key in env:
+                v_ = env[key]
+                return v_() if callable(v_) else v_
         if leaf in ("min", "max") and len(c) == 2:
             a, b = evalx(fn, c[0], env, depth + 1), evalx(fn, c[1], env, depth + 1)
             return min(a, b) if leaf == "min" else max(a, b)
